@@ -11,7 +11,7 @@ ID = "C06"
 RULE = ("Hypothesis (stochastic program, seeds, prior history) triples: program = C02-style handlers plus random "
         "delays drawn from seeded MersenneTwister streams, stream draws, observations to SimCounter/SimTally/"
         "SimWeightedTally/SimPersistent that are created in construct_model (as documented) and listen to one or two event types of producers that live for one replication or for the whole model, and attempts to "
-        "initialize from a running handler; prior history in {none, initialised only, k steps, stop() after event k, "
+        "initialize from a running handler, and cancel_event on handles kept from the previous replication; prior history in {none, initialised only, k steps, stop() after event k, "
         "bounded run, ended, paused by a handler fault, cleanup} with other seeds / other replication settings. "
         "Oracle (differential): trace, final clock, notification stream, stream draws and every statistics getter "
         "(hex floats) of the replication after the prior history equal those of the same replication on a brand-new "
@@ -36,10 +36,10 @@ def budget(tier):
 
 def strategy(tier):
     prog = progs.program_strategy(max_nodes=12 if tier == "quick" else 24, illegal=False, cap=120,
-                                  extra_actions=stoch.stoch_actions(with_stats=True, reinit=True))
+                                  extra_actions=stoch.stoch_actions(with_stats=True, reinit=True, cancel_old=True))
     seeds = st.lists(st.one_of(st.integers(0, 50), st.integers()), min_size=1, max_size=3)
     return st.fixed_dictionaries({
-        "prog": prog, "seeds": seeds, "n_initial": st.integers(0, 2), "reuse_streams": st.booleans(),
+        "prog": prog, "seeds": seeds, "n_initial": st.integers(0, 2), "reuse_streams": st.sampled_from([False, False, True, "updater"]),
         "long_lived_producers": st.sampled_from([False, False, False, True, True]),
         "two_types": st.booleans(),
         "drive2": st.sampled_from(["start", "start", "steps", "bounded"]), "k2": st.integers(1, 6),
@@ -146,7 +146,7 @@ def run_case(case):
     if n_init:
         out.label("initial-methods")
     if reuse:
-        out.label("streams-reused")
+        out.label("streams-reused" if reuse is True else "streams-reused-through-updater")
     llp = bool(case.get("long_lived_producers"))
     if llp:
         out.label("long-lived-producers")
